@@ -519,11 +519,15 @@ func (group *Group) feedRtpPacket(pkt rtprtcp.RtpPacket) {
 				// arrives: there is no stream description to tell a GOP start by, the session keeps waiting
 				boundary = false
 			} else {
+				// only a packet of the video track can start a GOP: IsAvcBoundary / IsHevcBoundary look at the
+				// payload bytes alone and also say yes to audio payloads (G.711 samples, an Opus TOC byte ...)
+				// that happen to read as IDR / SPS / PPS
+				isVideo := group.sdpCtx.IsVideoPayloadTypeOrigin(int(pkt.Header.PacketType))
 				switch group.sdpCtx.GetVideoPayloadTypeBase() {
 				case base.AvPacketPtAvc:
-					boundary = rtprtcp.IsAvcBoundary(pkt)
+					boundary = isVideo && rtprtcp.IsAvcBoundary(pkt)
 				case base.AvPacketPtHevc:
-					boundary = rtprtcp.IsHevcBoundary(pkt)
+					boundary = isVideo && rtprtcp.IsHevcBoundary(pkt)
 				default:
 					// 注意，不是avc和hevc时，直接发送
 					boundary = true
